@@ -24,7 +24,7 @@ class SchedTimeout(Exception):
 
 
 class Sched:
-    def __init__(self, schedule, rng, wall=20.0):
+    def __init__(self, schedule, rng, wall=20.0, fallback='random'):
         self.cv = threading.Condition()
         self.waiting = {}            # name -> (label, enabled fn)
         self.done = set()
@@ -33,6 +33,8 @@ class Sched:
         self.pos = 0
         self.rng = rng
         self.choices = []            # the thread actually chosen at every step (the effective schedule)
+        self.enabled_log = []        # the enabled set at every step (for systematic exploration)
+        self.fallback = fallback     # policy once the schedule is used up: 'random' | 'first'
         self.log = []                # (thread, event, payload)
         self.deadlock = False
         self.deadline = time.time() + wall
@@ -76,9 +78,10 @@ class Sched:
                 choice = c
                 break
         if choice is None:
-            choice = self.rng.choice(en)
+            choice = self.rng.choice(en) if self.fallback == 'random' else en[0]
         self.current = choice
         self.choices.append(choice)
+        self.enabled_log.append(en)
         self.steps += 1
         self.cv.notify_all()
 
@@ -330,7 +333,7 @@ class ShimExecutor:
     def __exit__(self, *a):
         self.s.yield_point('exit', lambda: all(f.state in ('done', 'cancelled') for f in self.futs))
         self.shutdown_flag = True
-        self.s.emit('exit')
+        self.s.emit('ex_exit')
         return False
 
 
